@@ -55,7 +55,7 @@ JOBS += [
 ] + [
     dict(name=nm, entry='h_flush_block', enforce='delta_encoder_flush_block',
          replace=['write_uleb128', 'bit_width_required'], min_loop_obligations=10, defines=defs,
-         trusted=[BITPACK_STUB], timeout=900,
+         trusted=[BITPACK_STUB], timeout=1500,
          **dict(D11, props=pr))
     for nm, defs, pr in [
         ('c11_delta_flush_block_safe', [], ['C11']),   # writes < capacity, reads < 128 deltas, frame, bytes written == min-delta varint + 4 + packed_bytes_needed
